@@ -12,9 +12,9 @@ TRUST = ('Trusted: Coq 8.16.1 kernel (vm_compute for witnesses and examples, no 
 P = {
  'C01': ('Theorems over the reals about the model\'s own icdf / mc_weight: lattice numbers map to cell midpoints with weight bins x width, the average of f*w over the '
          'complete midpoint lattice is the composite midpoint rule (any dimension, grid, refinement m, any f), exact for multi-affine f; channel weight x mixture density = 1 and '
-         'finite-sample-space unbiasedness over points and channel choice incl. zero weights. The model is executed bit for bit against the real templates on lattice runs.',
+         'finite-sample-space unbiasedness over points and channel choice incl. zero weights; supplement Properties_C01i (Coquelicot): for every Riemann-integrable f the integral of f(x(u)) w(u) over the unit interval equals the integral of f, for every valid grid incl. zero-width bins, with an iterated d-dimensional version. The model is executed bit for bit against the real templates on lattice runs.',
          'real-arithmetic theorems (induction over dimensions, finite sums) about the executed model + bit-exact lattice-run correspondence',
-         'Rounding is not covered by the theorems (ideal arithmetic); the continuous change-of-variables integral is proved for affine integrands only.'),
+         'Rounding is not covered by the theorems (ideal arithmetic); the d-dimensional continuous statement is about iterated integrals.'),
  'C02': ('Law-generic theorems (every numeric type): an iteration of N calls yields exactly N integrand events, calls = N, the main cell is the translated accumulate folded over the '
          'sanitised (non-zero, finite) products in call order with nz/fin the two filter lengths; VEGAS / multi-channel adjustment data equal explicit per-bin / per-channel fold '
          'specifications; over the reals Kahan is exact and value / variance / error are the documented formulas (2 <= N < 2^64).',
@@ -27,7 +27,7 @@ P = {
          'User callbacks must respect checkpoint-text equality (proved for the built-in one); decimal round trip of numbers is C05\'s theorem; std engines are assumed to round-trip (measured).'),
  'C04': ('Lock-step model of the three MPI drivers (all ranks side by side, explicit reduction permutation, hang = a rank waiting in a collective another never enters): theorems that '
          'equal start states and rank-independent callback decisions never hang and keep all ranks equal, that every rank ends at generator + usage x calls, and that the ranks\' '
-         'stream intervals tile the serial one (from the C16 theorems on the translated split). The real drivers run on a thread-based MPI shim (P up to 33, permuted reductions) '
+         'stream intervals tile the serial one (from the C16 theorems on the translated split); supplement Properties_C04s: over the reals whole MPI runs of the three drivers return the serial checkpoint for every reduction order. The real drivers run on a thread-based MPI shim (P up to 33, permuted reductions) '
          'bit for bit against the model; the serial run of the same specification is the oracle.',
          'invariant over lock-step MPI semantics + translated work split theorems; shim-MPI correspondence with permuted reductions',
          'MPI_Allreduce semantics (same sum in some order on all ranks) is an assumption, validated under real OpenMPI (mpirun -np 2,3 in the quick tier, 1..8 in the thorough tier) for order-insensitive observables.'),
@@ -46,11 +46,11 @@ P = {
          'loop-invariant proof of the redistribution scan over the reals + bit-exact correspondence of refinement and inverse CDF',
          'Full monotonicity under rounding and overflow of the smoothing sums are not proved (named in the property file); u = 1 over the reals excluded (proved for the IEEE formats instead).'),
  'C08': ('Real-arithmetic theorems about the model\'s refine_weights for any libm with pow(0,b)=0, pow(d,b)>0: probability vector, disabled stay disabled, formula with the floor, '
-         'min/(1+n min) bound, zero-information data leave the weights unchanged, chains of refinements; IEEE lemma that a disabled channel stays exactly zero.',
+         'min/(1+n min) bound, zero-information data leave the weights unchanged, chains of refinements; IEEE: a disabled channel stays exactly zero, and (Properties_C08f) the refined weights are finite, in [0,1], and sum to one within (n+1) units of roundoff.',
          'algebraic proof over the reals on the executed model + bit-exact correspondence inside real runs',
-         'Float sum-to-one is tied (bit-exact) but not proved; libm pow only through recorded values.'),
+         'The float formula / floor clauses are tied (bit-exact) but not proved; libm pow only through recorded values.'),
  'C09': ('Bisection correctness of the model\'s upper_bound for every numeric type with order laws; over the reals channel i is selected iff u lies in the i-th cumulative interval of length w_i/sum; '
-         'for every IEEE format (Flocq, monotone rounding) the selected index is valid and never a zero-weight channel for every u in [0,1) incl. 0 and pred(1).',
+         'for every IEEE format (Flocq, monotone rounding) the selected index is valid and never a zero-weight channel for every u in [0,1) incl. 0 and pred(1), and (Properties_C09f) every selection interval has length w_i/sum up to (n+1) units of roundoff.',
          'order-law-generic bisection proof + Flocq monotonicity proof; boundary-exhaustive correspondence',
          'libstdc++ upper_bound / partial_sum / generate_canonical are modelled (validated by the tie).'),
  'C10': ('Law-generic theorems: an iteration of N calls advances the generator by exactly N x d (N x (d+1) multi-channel) canonical numbers whatever the integrand returns; the stored generator is '
